@@ -1,6 +1,7 @@
 package c09
 
 import (
+	"encoding/json"
 	"fmt"
 	"github.com/dop251/goja"
 	"os"
@@ -44,4 +45,36 @@ func TestProbeIdle(t *testing.T) {
 		fmt.Printf("res=%s ft=%v idle=%+v\n", res, ft, goja.VerifIdle(e.rt))
 		self, _ = e.genStart()
 	}
+}
+
+// C09_JS=<file defining G> C09_HIST='[[ctx,op,v],...]' : runs the history through runh from Go (one script run)
+// and then call by call.
+func TestProbeHist(t *testing.T) {
+	fn := os.Getenv("C09_JS")
+	if fn == "" || os.Getenv("C09_HIST") == "" {
+		t.Skip("set C09_JS and C09_HIST")
+	}
+	src, _ := os.ReadFile(fn)
+	var raw [][3]int
+	if err := json.Unmarshal([]byte(os.Getenv("C09_HIST")), &raw); err != nil {
+		t.Fatal(err)
+	}
+	hist := make([]Step, len(raw))
+	for i, r := range raw {
+		hist[i] = Step{Ctx: r[0], Op: r[1], V: r[2]}
+	}
+	e := newEngine()
+	if err := e.define(string(src), false); err != nil {
+		t.Fatal(err)
+	}
+	res, logs, ft := e.genRunAll(hist)
+	fmt.Println("one run:", res, logs, ft, e.idleFault())
+	e = newEngine()
+	e.define(string(src), false)
+	self, _ := e.genStart()
+	for _, st := range hist {
+		r, lg, ft := e.genStep(self, st.Ctx, st.Op, st.V)
+		fmt.Println("step:", r, lg, ft)
+	}
+	fmt.Println(e.idleFault())
 }
